@@ -169,6 +169,13 @@ def flows_into(fn, start_id, sink_test, table=None, subject=None):
         seen.add((v, added))
         for i in users.get(v, ()):
             if sink_test(i, v): reached = True; continue
+            if i.op == "store" and i.ops[0]["k"] == "inst" and i.ops[0]["v"] == v:
+                # kept in a local array for a later pass (`widths[i] = w; ... offset += widths[i]`): what is loaded from that array is it
+                root = _alloca_root(fn, i.ops[1])
+                if root is not None:
+                    for ld in fn.insts():
+                        if ld.op == "load" and ld.id >= 0 and _alloca_root(fn, ld.ops[0]) == root: work.append((ld.id, added))
+                continue
             if i.id < 0: continue
             if i.op == "call" and i.get("callee") and not i["callee"].startswith("llvm.") and fn.mod.fn(i["callee"]) is not None and not fn.mod.fn(i["callee"]).decl:
                 # a length handed to a helper that adds it into what it returns (e.g. headerLen(minWidth, countWidth))
@@ -191,6 +198,17 @@ def flows_into(fn, start_id, sink_test, table=None, subject=None):
                         alts.add(K if rng is not None else ("ungoverned", K))
                 work.append((i.id, added))
     return reached, tuple(sorted(alts, key=repr))
+
+
+def _alloca_root(fn, o):
+    """the local array an address points into (through casts and element arithmetic), or None"""
+    for _ in range(6):
+        if o["k"] != "inst": return None
+        x = fn.imap[o["v"]]
+        if x.op == "alloca": return x.id
+        if x.op in ("bitcast", "getelementptr"): o = x.ops[0]
+        else: return None
+    return None
 
 
 _PRR = {}
